@@ -354,6 +354,35 @@ func ruleAntispamGating(c *Ctx, r *Rule) {
 		}
 		r.Ob(thr, c.fnName(in)+"|antispam-enabled", ci.Pos(), "IsSpam is consulted only when the antispam threshold is enabled (>= 0): a disabled antispam never drops; guards: "+c.clausesString(c.guards(in)[ci.Block()]))
 		r.Ob(notPartial, c.fnName(in)+"|not-partial", ci.Pos(), "IsSpam is not consulted for partial CRI rows")
+		// ... and under no other condition: IsSpam also does the per-source bookkeeping (a new source resets
+		// its counter there), so skipping the call for some records changes later verdicts
+		extra := ""
+		for _, l := range c.unitGuards(ci) {
+			if op, x, y, ok := cmpLit(l); ok && op == token.GEQ {
+				if k, isK := constInt(y); isK && k == 0 {
+					if _, f, _, okf := loadedField(stripConv(x)); okf && f == "Threshold" {
+						continue
+					}
+				}
+			}
+			if !l.pol {
+				if _, f, _, okf := loadedField(l.v); okf && f == "IsPartial" {
+					continue
+				}
+				if fl, ok := l.v.(*ssa.Field); ok {
+					if _, f, _, okf := fieldOf(fl); okf && f == "IsPartial" {
+						continue
+					}
+				}
+			}
+			if ex, ok := l.v.(*ssa.Extract); ok {
+				if call, isCall := ex.Tuple.(*ssa.Call); isCall && call.Call.StaticCallee() != nil && call.Call.StaticCallee().Name() == "checkInputBytes" {
+					continue // the record passed the size check (its own refusal reason)
+				}
+			}
+			extra = c.litString(l)
+		}
+		r.Ob(extra == "", c.fnName(in)+"|antispam-always-consulted", ci.Pos(), "every complete record of an antispam-enabled pipeline goes through IsSpam (no further condition)"+ifs(extra != "", "; also requires "+extra))
 	}
 	name := c.fnName(isSpam)
 	// constant verdicts
@@ -387,6 +416,50 @@ func ruleAntispamGating(c *Ctx, r *Rule) {
 			okCmp = !isArith && !isArithX
 		}
 		r.Ob(okCmp, key+"|counting-verdict", ret.Pos(), "the counting verdict is counter >= threshold: "+c.path(v))
+	}
+	// each exception is matched against its own subject: the event, or the source name when the
+	// exception says so — chosen inside the iteration, never carried over from the previous exception
+	for _, ci := range callsIn(isSpam) {
+		f := calleeFunc(ci)
+		if f == nil || f.Name() != "Match" || len(ci.Common().Args) != 2 {
+			continue
+		}
+		head := loopHeadOf(ci)
+		if head == nil {
+			continue
+		}
+		subj := ci.Common().Args[1]
+		carried := false
+		okLeaves := true
+		seen := map[ssa.Value]bool{}
+		var walk func(v ssa.Value)
+		walk = func(v ssa.Value) {
+			if seen[v] {
+				return
+			}
+			seen[v] = true
+			if p, ok := v.(*ssa.Phi); ok {
+				if p.Block() == head {
+					carried = true
+					return
+				}
+				for _, e := range p.Edges {
+					walk(e)
+				}
+				return
+			}
+			switch x := v.(type) {
+			case *ssa.Parameter:
+			case *ssa.Convert:
+				if _, isP := x.X.(*ssa.Parameter); !isP {
+					okLeaves = false
+				}
+			default:
+				okLeaves = false
+			}
+		}
+		walk(subj)
+		r.Ob(!carried && okLeaves, name+"|exception-subject", ci.Pos(), "an exception is matched against the event bytes or the source name, chosen for this exception alone"+ifs(carried, " (the subject is carried over from the previous exception)"))
 	}
 	// exception match => false ; new source => false ; disabled => false
 	want := map[string]bool{"exception-match": false, "new-source": false, "disabled": false}
